@@ -43,8 +43,11 @@ let fmt_event = function
   | Label l -> Printf.sprintf "B%d" (int_of_nat l)
   | Alloc -> "A"
 
+let count_allocs (t : event list) = List.length (List.filter (fun e -> e = Alloc) t)
+
+(* Alloc events are compared by the allocation probe (C17), not by the load/step trace *)
 let fmt_trace (t : event list) =
-  let toks = List.map fmt_event t in
+  let toks = List.map fmt_event (List.filter (fun e -> e <> Alloc) t) in
   let n = List.length toks in
   if n = 0 then "-"
   else if n > verbatim then begin
@@ -128,6 +131,39 @@ let run_case op kv : string * string =
       | RHint (lo, hi) -> Printf.sprintf "%d-%d" (int_of_nat lo) (int_of_nat hi)
       | RCount n -> string_of_int (int_of_nat n) in
     (fmt_res (fun outs -> if outs = [] then "-" else String.concat ";" (List.map fmt_out outs)) r, fmt_trace t)
+  | "rkfind" | "rkrfind" ->
+    let x = bytes kv "x" and h = bytes kv "h" in
+    let nx = if get kv "nx" = "" then x else bytes kv "nx" in
+    if op = "rkfind" then let (r, t) = rk_find (rk_new nx) x h in (fmt_res fmt_opt_nat r, fmt_trace t)
+    else let (r, t) = rk_rfind (rk_new_rev nx) x h in (fmt_res fmt_opt_nat r, fmt_trace t)
+  | "sofind" ->
+    let x = bytes kv "x" and h = bytes kv "h" in
+    let (f, t1) = so_new x in
+    (match f with
+     | Panic p -> ("Panic:" ^ fmt_panic p, fmt_trace t1)
+     | Ok None -> ("Unsupported", fmt_trace t1)
+     | Ok (Some f) -> let (r, t) = so_find f h in (fmt_res fmt_opt_nat r, fmt_trace (t1 @ t)))
+  | "ppfind" | "ppprefilter" ->
+    let x = bytes kv "x" and h = bytes kv "h" in
+    let fx = if get kv "fx" = "" then x else bytes kv "fx" in
+    let isa = (match get kv "isa" with "sse2" -> PSse2 | "avx2" -> PAvx2 | "neon" -> PNeon | "simd128" -> PSimd128 | s -> failwith s) in
+    (match pair_with_indices x (nat_of_int (num kv "i1")) (nat_of_int (num kv "i2")) with
+     | None -> ("NoPair", "-")
+     | Some (i1, i2) ->
+       (match pw_new isa x i1 i2 with
+        | Panic p -> ("Panic:" ^ fmt_panic p, "-")
+        | Ok w ->
+          let (r, t) = if op = "ppfind" then pw_find w h fx else pw_find_prefilter w h in
+          (Printf.sprintf "min=%d:%s" (int_of_nat (pw_min w)) (fmt_res fmt_opt_nat r), fmt_trace t)))
+  | "pfprefilter" ->
+    let x = bytes kv "x" and h = bytes kv "h" in
+    let cpu = (match get kv "cpu" with "sse2" -> Sse2Only | "none" -> NoSimd | _ -> HasAvx2) in
+    (match pair_with_indices x (nat_of_int (num kv "i1")) (nat_of_int (num kv "i2")) with
+     | None -> ("NoPair", "-")
+     | Some (i1, i2) ->
+       (match pf_new x i1 i2 with
+        | Panic p -> ("Panic:" ^ fmt_panic p, "-")
+        | Ok f -> let (r, t) = pf_find_prefilter cpu f (nat_of_int (num kv "a")) h in (fmt_res fmt_opt_nat r, fmt_trace t)))
   | _ -> ("UnknownOp", "-")
 
 let () =
